@@ -219,6 +219,7 @@ Inductive c01ng_class : Type :=
 | N_kwargs_shape          (* a parameter named ...kwargs without default, with type dict, or with a real default *)
 | N_default_then_none     (* a parameter without default after one with a default acquires the zero value of its type *)
 | N_return_after_default  (* return entry without default after a parameter with default: the return entry acquires a default *)
+| N_type_unparsed         (* a default under a type that the model cannot read as an expression: _infer_default parses the type (SyntaxError for a non-expression) *)
 | N_code_default_untyped  (* a back-tick quoted default that survives the sentence (str-like type without brackets) makes the parser drop the type *)
 | N_return_partial        (* return entry lacking type or prose: numpydoc IndexError / entries shift; google reads the type as prose *)
 | N_google_return_only.   (* google, return entry without parameters: type line and prose come back as one prose string *)
@@ -239,7 +240,8 @@ Definition c01ng_class_name (k : c01ng_class) : str :=
   | N_kwargs_shape => L "kwargs-shape"
   | N_default_then_none => L "default-forces-later-defaults"
   | N_return_after_default => L "return-after-default"
-  | N_code_default_untyped => L "code-default-drops-type"
+  | N_type_unparsed         (* a default under a type that the model cannot read as an expression: _infer_default parses the type (SyntaxError for a non-expression) *)
+| N_code_default_untyped => L "code-default-drops-type"
   | N_return_partial => L "return-partial"
   | N_google_return_only => L "google-return-only"
   end.
@@ -329,6 +331,8 @@ Definition entry_class (style : ngstyle) (name : str) (g : gparam) : option c01n
           if writes_default name g then
             match sdefault g with
             | Some v =>
+              if match needs_quoting_ng (Some t) with Ok _ => false | Err _ => true end then Some N_type_unparsed
+              else
               match finding_class_C17 ADefaultsTo d v (Some t) with
               | Some k => Some (N_default_codec k)
               | None =>
